@@ -14,19 +14,22 @@ Rewrites (variant in brackets):
   R7 [2|0.4|2.5]    positive rescaling of every inequality / equality, including the infinity-norm / linear writing of a
                     box (k*norm(e,'inf') <= k*r, -k*r <= -k*norm(e,'inf'), norm(e,'inf')*k - k*r <= 0); Bounds objects cannot
                     be rescaled and stay as they are
-  R8 [args|gen|tup] a collection given as one list -> several arguments | a generator | a tuple
-                    (st, forall, minmax/maxmin, suppset)
+  R8 [args|gen|tup|bl|ll|lb]  a collection given as one list -> all bare arguments | a generator | a tuple |
+                    bare+list (c1, [c2, c3]) | list+list ([c1], [c2, c3]) | list+bare ([c1, c2], c3)
+                    at EVERY set-taking entry point: st, minmax, maxmin, forall (ro: *args; dro: forall(support
+                    constraints) takes ONE object, the mixed shapes become nested lists), suppset (whole / event-level),
+                    exptset, probset (base dro_pl only: its base form is bare arguments, the only accepted one)
   R9 [1]            ro model -> single-scenario dro model (deterministic bases: dro front end)
 """
 import numpy as np
 from . import c09c15_common as C
 
 VARIANTS = {'R1': ['1'], 'R2': ['v', 'c', 'vc'], 'R3': ['neg', 'flip', 'sub'], 'R4': ['1'], 'R5': ['lin', 'ninf'],
-            'R6': ['loop', 'elem'], 'R7': ['2', '0.4', '2.5'], 'R8': ['args', 'gen', 'tup'], 'R9': ['1']}
-BASES = ['lp', 'socp', 'ro_box', 'ro_norm', 'ro_ball', 'ro_boxeq', 'ro_zbox', 'ro_zmir', 'dro']
+            'R6': ['loop', 'elem'], 'R7': ['2', '0.4', '2.5'], 'R8': ['args', 'gen', 'tup', 'bl', 'll', 'lb'], 'R9': ['1']}
+BASES = ['lp', 'socp', 'ro_box', 'ro_norm', 'ro_ball', 'ro_boxeq', 'ro_zbox', 'ro_zmir', 'dro', 'dro_pl']
 HOWS = {'lp': ['def', 'eco'], 'socp': ['eco', 'grb'], 'ro_box': ['def', 'eco'], 'ro_norm': ['def', 'eco'],
-        'ro_ball': ['eco'], 'ro_boxeq': ['def'], 'ro_zbox': ['def', 'eco'], 'ro_zmir': ['def'], 'dro': ['def', 'eco']}
-NOT_APPLICABLE = {('dro', 'R9')}
+        'ro_ball': ['eco'], 'ro_boxeq': ['def'], 'ro_zbox': ['def', 'eco'], 'ro_zmir': ['def'], 'dro': ['def', 'eco'], 'dro_pl': ['def']}
+NOT_APPLICABLE = {('dro', 'R9'), ('dro_pl', 'R9')}
 
 
 def palettes(k):
@@ -48,9 +51,9 @@ class Builder(object):
         self.nops = 0
         R = C.R
         self.rso = R['rso']
-        self.dro_fe = (base == 'dro') or ('R9' in self.act)
+        self.dro_fe = base in ('dro', 'dro_pl') or ('R9' in self.act)
         if self.dro_fe:
-            self.m = R['dro'].Model(2 if base == 'dro' else 1)
+            self.m = R['dro'].Model(2 if base in ('dro', 'dro_pl') else 1)
         else:
             self.m = R['ro'].Model()
         self.sign = 1
@@ -157,7 +160,31 @@ class Builder(object):
             return ((c for c in lst),)
         if v == 'tup':
             return (tuple(lst),)
+        if len(lst) > 1:
+            if v == 'bl':
+                return (lst[0], lst[1:])
+            if v == 'll':
+                return ([lst[0]], lst[1:])
+            if v == 'lb':
+                return (lst[:-1], lst[-1])
         return (lst,)
+
+    def coll1(self, lst):
+        """A collection for an entry point that takes ONE object (dro forall(support constraints))."""
+        v = self.has('R8')
+        lst = list(lst)
+        if v == 'gen':
+            return (c for c in lst)
+        if v == 'tup':
+            return tuple(lst)
+        if len(lst) > 1:
+            if v == 'bl':
+                return [lst[0], lst[1:]]
+            if v == 'll':
+                return [[lst[0]], lst[1:]]
+            if v == 'lb':
+                return [lst[:-1], lst[-1]]
+        return lst
 
     def finish(self, obj, wc_set=None):
         """Hand constraints over (R2 order, R8 style) and set the objective (R1)."""
@@ -252,10 +279,13 @@ def zset(b, z, kind):
     return cons
 
 
-def robust(b, con, zs, fset):
-    """Attach the set to a robust constraint (ro: forall(collection) ; dro: forall(ambiguity set))."""
+def robust(b, con, zs, fset, aslist=False):
+    """Attach the set to a robust constraint (ro: forall(collection) ; dro: forall(ambiguity set), or with aslist
+    forall(support constraints) which takes one object)."""
     b.nops += 1
     if b.dro_fe:
+        if aslist:
+            return con.forall(b.coll1(zs))
         return con.forall(fset) if fset is not None else con
     return con.forall(*b.coll(zs))
 
@@ -290,7 +320,7 @@ def build_ro(b, kind):
         e1 = d[0] * z[0] + d[1] * z[1] + 1 - x[0]
     else:
         e1 = d @ z + 1 - x[0]
-    b.collect([robust(b, b.geq(y[0], e1), zs_(), fset)])
+    b.collect([robust(b, b.geq(y[0], e1), zs_(), fset, aslist=True)])
     b.collect([b.geq(y[0], 0.5 * z[1] + 0.25)])
     b.collect([b.geq(y[1], 0.5 * z[0] - 1.0 * z[1] + 0.125 * w.sum())])
     b.collect([b.geq(y[1], -0.25 * z[0] - 0.75)])
@@ -345,10 +375,10 @@ def build_roz(b, kind):
     # ARRAY-valued robust constraints (2 rows; own set and default set): array form versus one constraint per row
     if b.has('R6'):
         for i in range(2):
-            b.collect([robust(b, b.leq(MZ[i] @ z + QZ[i], x[i]), zbset(b, z, zu, kind), fset)])
+            b.collect([robust(b, b.leq(MZ[i] @ z + QZ[i], x[i]), zbset(b, z, zu, kind), fset, aslist=True)])
             b.collect([b.leq(MZ[1 - i] @ z * 0.5 + QZ[i], x[i + 1])])
     else:
-        b.collect([robust(b, b.leq(MZ @ z + QZ, x[0:2]), zbset(b, z, zu, kind), fset)])
+        b.collect([robust(b, b.leq(MZ @ z + QZ, x[0:2]), zbset(b, z, zu, kind), fset, aslist=True)])
         b.collect([b.leq(MZ[::-1] @ z * 0.5 + QZ, x[1:3])])
     c = p['c']
     if b.has('R6'):
@@ -376,7 +406,11 @@ def build_dro(b):
     f[1].suppset(*b.coll(b.box(z, np.array([0.0, -1.0]), np.array([1.0, 0.75]))))
     ez = rso.E(z)
     f.exptset(*b.coll([b.leq(ez, np.array([0.25, 0.5])), b.geq(ez, np.array([-0.25, -0.125]))]))
-    f.probset(b.leq(m.p, np.array([0.75, 0.625])))
+    pl = [b.leq(m.p, np.array([0.75, 0.625])), b.geq(m.p, np.array([0.125, 0.1875]))]
+    if b.base == 'dro_pl':
+        f.probset(*b.coll(pl)) if b.has('R8') else f.probset(*pl)
+    else:
+        f.probset(*pl)
     d = p['d']
     b.collect(b.box(x, np.zeros(2), np.array([2.0, 2.0])))
     b.collect([b.leq(x[1] - x[0], 1.5)])
@@ -394,9 +428,9 @@ def build_dro(b):
     MD = np.array([[1.0, -0.5], [-0.75, 0.5]])
     if b.has('R6'):
         for i in range(2):
-            b.collect([b.leq(MD[i] @ z * 0.25 + 0.125, x[i])])
+            b.collect([b.leq(MD[i] @ z * 0.25 + 0.125, x[i]).forall(b.coll1(zset(b, z, 'norm')))])
     else:
-        b.collect([b.leq(MD @ z * 0.25 + 0.125, x)])
+        b.collect([b.leq(MD @ z * 0.25 + 0.125, x).forall(b.coll1(zset(b, z, 'norm')))])
     obj = rso.E(p['c'][0] * x[0] - 0.5 * x[1] + 2 * y + 0.75 * u[0] + 0.5 * u[1] + 0.5 * z[0])
     b.finish(obj, f)
 
@@ -411,7 +445,7 @@ def build(base, act, pal):
         build_roz(b, base[3:])
     elif base.startswith('ro_'):
         build_ro(b, base[3:])
-    elif base == 'dro':
+    elif base in ('dro', 'dro_pl'):
         build_dro(b)
     else:
         raise ValueError(base)
